@@ -59,11 +59,12 @@ PatternFails(C) ==
       RD == [c \in 1..nc |-> DofSet(C, C.trial, c)]
       nt == NumDofs(C, C.test)   nr == NumDofs(C, C.trial)
       CellsAt == [i \in 0..(nt - 1) |-> {c \in 1..nc : i \in TD[c]}]
-      SpecRow(kind, i) == IF kind = "diag" THEN {i}
-                          ELSE UNION {UNION {RD[c2] : c2 \in Neigh(C, kind, c)} : c \in CellsAt[i]}
       one(kind, g) ==
         IF ~CsrValid(g, nt, nr) THEN Fail(FALSE, "PatternValid", -1, kind)
-        ELSE LET bad == {i \in 0..(nt - 1) : ~(StrictlyAscending(RowOf(g, i)) /\ RangeA(RowOf(g, i)) = SpecRow(kind, i))}
+        ELSE LET \* trial dofs reachable from a cell through its neighbourhood
+                 Reach == [c \in 1..nc |-> UNION {RD[c2] : c2 \in Neigh(C, kind, c)}]
+                 SpecRow(i) == IF kind = "diag" THEN {i} ELSE UNION {Reach[c] : c \in CellsAt[i]}
+                 bad == {i \in 0..(nt - 1) : ~(StrictlyAscending(RowOf(g, i)) /\ RangeA(RowOf(g, i)) = SpecRow(i))}
              IN Fail(bad = {}, "PatternEqualsSpec", -1, kind)
       dofs == \* the dumped dof mappings realise the signature: same set, no local duplicates, right global count
         Fail(C.nt = nt /\ C.nr = nr, "NumDofs", -1, "")
@@ -99,12 +100,22 @@ Convex2D(C, c) ==
   LET P == CellPts(C, c) IN
   IF C.shape = "simplex" THEN TriD(P[1], P[2], P[3]) > 0
   ELSE TriD(P[1], P[2], P[4]) > 0 /\ TriD(P[1], P[4], P[3]) > 0 /\ TriD(P[1], P[2], P[3]) > 0 /\ TriD(P[2], P[4], P[3]) > 0
+Det3(a, b, c) == a[1] * (b[2] * c[3] - b[3] * c[2]) - a[2] * (b[1] * c[3] - b[3] * c[1]) + a[3] * (b[1] * c[2] - b[2] * c[1])
+Diff(p, q) == [d \in 1..Len(p) |-> p[d] - q[d]]
+\* dim! * volume of a cell (simplices; hypercubes only as axis-parallel boxes, where it is dim! * BoxVol)
+CellVolF(C, c) ==
+  LET P == CellPts(C, c) IN
+  IF C.shape = "hypercube" THEN (IF C.dim = 2 THEN 2 ELSE 6) * BoxVol(C, c)
+  ELSE IF C.dim = 2 THEN TriD(P[1], P[2], P[3])
+  ELSE Det3(Diff(P[2], P[1]), Diff(P[3], P[1]), Diff(P[4], P[1]))
 ClassOK(C) ==
+  \* box: the cells tile [0,1]^dim (positive volumes summing to 1 inside the box; conformity is C10's subject);
+  \*      hypercube cells are axis-parallel boxes in FEAT's vertex numbering
   /\ (C.class = "box" =>
-        /\ C.shape = "hypercube"
-        /\ \A c \in 1..NC(C) : IsBoxCell(C, c)
+        /\ (C.shape = "hypercube" => \A c \in 1..NC(C) : IsBoxCell(C, c))
+        /\ \A c \in 1..NC(C) : CellVolF(C, c) > 0
         /\ \A v \in 1..Len(C.X) : \A d \in 1..C.dim : C.X[v][d] \in 0..C.G
-        /\ SumA([c \in 1..NC(C) |-> BoxVol(C, c)]) = PowA(C.G, C.dim))
+        /\ SumA([c \in 1..NC(C) |-> CellVolF(C, c)]) = (IF C.dim = 2 THEN 2 ELSE 6) * PowA(C.G, C.dim))
   /\ (C.class = "affine" /\ C.shape = "hypercube" => C.dim = 2 /\ \A c \in 1..NC(C) : QuadAffine(CellPts(C, c)))
   /\ (C.dim = 2 => \A c \in 1..NC(C) : Convex2D(C, c))
   /\ (C.class # "box" => C.dim = 2)
@@ -124,9 +135,14 @@ RouteFails(C, j, J, O) ==
         IF isRef(r) THEN {}
         ELSE IF obsOf(r) = {} THEN Fail(FALSE, "MACHINERY:RouteNotExecuted", j, r)
         ELSE LET o == O.routes[CHOOSE k \in obsOf(r) : TRUE]
-                 bitwise == IF J.k = "mat" THEN BitwiseWithRef(J.op, r) ELSE r = "domain"
+                 bitwise == <<J.ref, r>> \in BitPairs
              IN Fail(IF bitwise THEN o.bit ELSE o.within, IF bitwise THEN "RoutesAgreeBitwise" ELSE "RoutesAgree", j, r)
   IN UNION {one(J.routes[k]) : k \in 1..Len(J.routes)}
+     \* two routes of a bitwise pair of which neither is the reference are compared with each other
+     \cup UNION {IF {bp[1], bp[2]} \subseteq RangeA(J.routes) /\ J.ref \notin {bp[1], bp[2]}
+                 THEN Fail(\E k \in 1..Len(O.pairs) : O.pairs[k].a = bp[1] /\ O.pairs[k].b = bp[2] /\ O.pairs[k].bit,
+                           "RoutesAgreeBitwise", j, bp[2])
+                 ELSE {} : bp \in BitPairs}
      \* AssembleTwice: adding alpha * A onto an assembled A gives (1 + alpha) * A, on every route that takes alpha
      \cup UNION {Fail(O.twice[k].within, "AssembleTwice", j, O.twice[k].r) : k \in 1..Len(O.twice)}
      \cup Fail(\A r \in RangeA(J.routes) \cap AlphaRoutes : \A a \in RangeA(J.alphas) :
@@ -183,6 +199,19 @@ VecJobFails(C, j, mom, J, O) ==
        IF Len(O.ids) # Len(J.ids) THEN Fail(FALSE, "MACHINERY:IdCount", j, "")
        ELSE UNION {IdFails(C, j, mom, FuncForm(fn, C.dim, J.ids[k].u), FuncDeg(fn) + TotDeg(J.ids[k].u), J.ids[k], O.ids[k]) : k \in 1..Len(J.ids)} }
 
+\* blocked = scalar (x) structure on every route
+BlkJobFails(C, j, J, O) ==
+  UNION {
+    Fail(/\ J.bop \in BOpsOf(C.dim) /\ C.test = C.trial /\ BOpSensible(J.bop, C.shape, C.dim, C.class, C.test)
+         /\ J.deg >= BReqDeg(J.bop, C.shape, C.dim, C.class, C.test)
+         /\ RangeA(J.routes) \subseteq BRoutes(J.bop, C.shape, C.test) /\ J.ref = BRef(J.bop)
+         /\ J.blocks = BlocksOf(J.bop, C.dim),
+         "MACHINERY:JobNotInCatalogue", j, ""),
+    RouteFails(C, j, J, O),
+    UNION {LET hit == {k \in 1..Len(O.blk) : O.blk[k].r = J.routes[q]} IN
+           IF hit = {} THEN Fail(FALSE, "MACHINERY:RouteNotExecuted", j, J.routes[q])
+           ELSE Fail(\A k \in hit : O.blk[k].within, "BlockedIsScalar", j, J.routes[q]) : q \in 1..Len(J.routes)} }
+
 Verdict(C) ==
   IF ~ClassOK(C) THEN Fail(FALSE, "MACHINERY:MeshClass", -1, C.class)
   ELSE
@@ -192,11 +221,13 @@ Verdict(C) ==
                THEN Fail(\A e \in PSet(2, 2) : mom[e] * BoxScale(2) = MomBox(e) * PolyScale(C.G, TotDeg(e)), "MACHINERY:MomLaw", -1, "")
                ELSE {}
     IN law \cup PatternFails(C)
-       \cup UNION {IF C.jobs[j].spec.k = "mat" THEN MatJobFails(C, j, mom, C.jobs[j].spec, C.jobs[j].obs)
-                   ELSE VecJobFails(C, j, mom, C.jobs[j].spec, C.jobs[j].obs) : j \in 1..Len(C.jobs)}
+       \cup UNION {CASE C.jobs[j].spec.k = "mat" -> MatJobFails(C, j, mom, C.jobs[j].spec, C.jobs[j].obs)
+                     [] C.jobs[j].spec.k = "vec" -> VecJobFails(C, j, mom, C.jobs[j].spec, C.jobs[j].obs)
+                     [] C.jobs[j].spec.k = "blk" -> BlkJobFails(C, j, C.jobs[j].spec, C.jobs[j].obs) : j \in 1..Len(C.jobs)}
 
-NIds(C) == SumA([j \in 1..Len(C.jobs) |-> Len(C.jobs[j].obs.ids)])
-NUndec(C) == SumA([j \in 1..Len(C.jobs) |-> Cardinality({k \in 1..Len(C.jobs[j].obs.ids) : ~C.jobs[j].obs.ids[k].dec})])
+NIds(C) == SumA([j \in 1..Len(C.jobs) |-> IF C.jobs[j].spec.k = "blk" THEN 0 ELSE Len(C.jobs[j].obs.ids)])
+NUndec(C) == SumA([j \in 1..Len(C.jobs) |-> IF C.jobs[j].spec.k = "blk" THEN 0
+                    ELSE Cardinality({k \in 1..Len(C.jobs[j].obs.ids) : ~C.jobs[j].obs.ids[k].dec})])
 
 CEmit == LET C == Cases[ci] IN
   PrintT(ToJson([id |-> C.id, fails |-> SetToSeqA(Verdict(C)), nids |-> NIds(C), nundec |-> NUndec(C)]))
